@@ -1,5 +1,6 @@
 #!/bin/bash
 # build.sh <repo-dir> <output-binary>: same E3 build as C12 (instrumented driver overlay +
 # instrumented akita copy), other main package. c12/build.sh (step 9) also builds the platform
-# repeat-run part ./checks/c05/repeat as <output-binary>-repeat with the PLAIN modfile.
+# repeat-run part ./checks/c05/repeat as <output-binary>-repeat with the PLAIN modfile, and (step 10) the
+# parallel-engine pass ./checks/c05/prace as <output-binary>-prace (plain modfile, go build -race).
 exec "$(dirname "$0")/../c12/build.sh" "$1" "$2" ./checks/c05
